@@ -351,6 +351,7 @@ def run(pid, tier, seed, replay=None):
         nontrivial = set()
         drift = []
         bad = collections.OrderedDict()
+        inpos = []
         for v in verdicts:
             s = idx[v["id"]]
             mode = s.split("\n", 1)[0].split()[2][5:]
@@ -363,10 +364,13 @@ def run(pid, tier, seed, replay=None):
             if v.get("drift"):
                 drift.append((v["id"], v["drift"]))
             if "X:in-pos" in v["viols"]:
-                raise vlib.MachineryError("harness: input bytes did not carry their positions in script %s" % v["id"])
+                inpos.append(v["id"])
             rules = [r for r in v["viols"] if r.startswith("C17:")]
             if rules:
                 bad[v["id"]] = rules
+        if inpos and not bad:
+            # (with violations around, the code under test may simply have corrupted memory)
+            raise vlib.MachineryError("harness: input bytes did not carry their positions in scripts %s" % inpos[:5])
         # a violation counts when a second run of the same script shows it again
         # (at most one script per distinct rule set x mode, 60 in total)
         pick, keys = [], set()
